@@ -93,9 +93,9 @@ theorem tcd_rot_invariant (sq : Rat → Rat) (pi : Rat) (Om : Tri → Rat) (q : 
   by_cases hc : f.nvdim = 3 ∧ f.mesh.ndim = 2 ∧ m ≠ .other
   · obtain ⟨h3, h2, hm⟩ := hc
     rw [tcd_succeeds sq pi Om f m h3 h2 hm, tcd_succeeds sq pi Om (rotF q f) m h3 h2 hm]
-    congr 3
-    funext i
-    rw [tcdVal_rotF sq pi Om q hq]
+    have e : (fun i => [tcdVal sq pi Om (rotF q f) m i]) = fun i => [tcdVal sq pi Om f m i] := by
+      funext i; rw [tcdVal_rotF sq pi Om q hq]
+    rw [e]; rfl
   · cases h1 : tcd sq pi Om (rotF q f) m with
     | ok g => exact absurd (by obtain ⟨a, b, c, _⟩ := tcd_ok sq pi Om _ g m h1; exact ⟨a, b, c⟩) hc
     | error e =>
@@ -162,9 +162,10 @@ theorem tcd_scale_invariant (sq : Rat → Rat) (pi : Rat) (Om : Tri → Rat) (s 
     (m : Method) (h3 : f.nvdim = 3) (h2 : f.mesh.ndim = 2) (hm : m ≠ .other) :
     tcd sq pi Om (scaleF s f) m = tcd sq pi Om f m := by
   rw [tcd_succeeds sq pi Om f m h3 h2 hm, tcd_succeeds sq pi Om (scaleF s f) m h3 h2 hm]
-  congr 3
-  funext i
-  rw [tcdVal_scaleF sq pi Om s f (fun i => orient_smul sq (s i) _ (hs i) (hsq i) (hz i))]
+  have e : (fun i => [tcdVal sq pi Om (scaleF s f) m i]) = fun i => [tcdVal sq pi Om f m i] := by
+    funext i
+    rw [tcdVal_scaleF sq pi Om s f (fun i => orient_smul sq (s i) _ (hs i) (hsq i) (hz i))]
+  rw [e]; rfl
 
 /-- Scaling the mesh by `lam` and translating it by `t` divides both densities by `lam²`
 (`lam = 1`: a translation changes nothing). -/
@@ -196,46 +197,24 @@ theorem charge_reversal (sq : Rat → Rat) (pi : Rat) (Om : Tri → Rat)
     (hOm : ∀ tr, tr.t ≠ 0 → Om (flipT tr) = -Om tr) (f : Fld) (m : Method) (c ca : Rat)
     (h : charge sq pi Om f m false = .ok c) (ha : charge sq pi Om f m true = .ok ca) :
     charge sq pi Om (negF f) m false = .ok (-c) ∧ charge sq pi Om (negF f) m true = .ok ca := by
-  unfold charge at h ha ⊢
-  have hn : (negF f).nvdim = f.nvdim := rfl
-  have hd : (negF f).mesh = f.mesh := rfl
-  rw [hn, hd]
-  by_cases h3 : f.nvdim ≠ 3
-  · rw [if_pos h3] at h; cases h
-  · rw [if_neg h3] at h ha ⊢
-    by_cases h2 : f.mesh.ndim ≠ 2
-    · rw [if_pos h2] at h; cases h
-    · rw [if_neg h2] at h ha ⊢
-      cases hq : tcd sq pi Om f m with
-      | error e => rw [hq] at h; cases h
-      | ok q =>
-        rw [hq] at h ha
-        obtain ⟨q', hq', hm, _, hs, hv⟩ := tcd_reversal sq pi Om hOm f q m hq
-        rw [hq']
-        obtain ⟨e1, e2⟩ := integrateAll_neg q q' hs hv hm
-        simp only at h ha ⊢
-        injection h with h; injection ha with ha
-        rw [e1, e2, h, ha]
-        exact ⟨rfl, rfl⟩
+  obtain ⟨q, hq, rfl⟩ := charge_ok_inv sq pi Om f m false c h
+  obtain ⟨q2, hq2, rfl⟩ := charge_ok_inv sq pi Om f m true ca ha
+  rw [hq] at hq2
+  injection hq2 with hq2
+  subst hq2
+  obtain ⟨q', hq', hm, _, hs, hv⟩ := tcd_reversal sq pi Om hOm f q m hq
+  obtain ⟨e1, e2⟩ := integrateAll_neg q q' hs hv hm
+  rw [charge_of_tcd sq pi Om (negF f) q' m false hq', charge_of_tcd sq pi Om (negF f) q' m true hq', e1, e2]
+  exact ⟨rfl, rfl⟩
 
 /-- A uniform field has zero charge and zero absolute charge. -/
 theorem charge_uniform_zero (sq : Rat → Rat) (pi : Rat) (Om : Tri → Rat) (f : Fld) (v : V3) (hu : uniformF f v)
     (m : Method) (a : Bool) (c : Rat) (h : charge sq pi Om f m a = .ok c) : c = 0 := by
-  unfold charge at h
-  split at h
-  · cases h
-  · split at h
-    · cases h
-    · cases hq : tcd sq pi Om f m with
-      | error e => rw [hq] at h; cases h
-      | ok q =>
-        rw [hq] at h
-        injection h with h
-        rw [← h]
-        apply integrateAll_zero
-        intro i
-        rw [tcd_uniform_zero sq pi Om f q v hu m hq i]
-        rfl
+  obtain ⟨q, hq, rfl⟩ := charge_ok_inv sq pi Om f m a c h
+  apply integrateAll_zero
+  intro i
+  rw [tcd_uniform_zero sq pi Om f q v hu m hq i]
+  rfl
 
 /-- The charge is unchanged by translating the mesh and by scaling it with any `lam ≠ 0`:
 the density scales by `1/lam²`, the cell area by `lam²`. -/
@@ -290,9 +269,11 @@ theorem charge_scale_invariant (sq : Rat → Rat) (pi : Rat) (Om : Tri → Rat) 
 theorem emergent_rot_invariant (q : M3) (hq : q.IsRot) (f : Fld) (h3 : f.nvdim = 3) (hd : f.mesh.ndim = 3) :
     emergent (rotF q f) = emergent f := by
   rw [emergent_eq f h3 hd, emergent_eq (rotF q f) h3 hd]
-  congr 3
-  funext i
-  rw [emSpec_rotF q hq, emSpec_rotF q hq, emSpec_rotF q hq]
+  have e : (fun i => [emSpec (rotF q f) 1 2 i, emSpec (rotF q f) 2 0 i, emSpec (rotF q f) 0 1 i])
+      = fun i => [emSpec f 1 2 i, emSpec f 2 0 i, emSpec f 0 1 i] := by
+    funext i
+    rw [emSpec_rotF q hq, emSpec_rotF q hq, emSpec_rotF q hq]
+  rw [e]; rfl
 
 /-- It changes sign under reversal (it is cubic in the field) and vanishes for uniform fields. -/
 theorem emergent_reversal_uniform (f : Fld) (k l : Nat) (i : List Nat) :
